@@ -25,7 +25,7 @@ const WRAPPERS: &[&str] = &[
     "(call/cc (lambda (k) •))",
 ];
 
-const CALLS: &[&str] = &["direct", "apply", "eval", "apply-list-only", "apply-empty-list", "via-local-alias", "via-data"];
+const CALLS: &[&str] = &["direct", "apply", "eval", "apply-list-only", "apply-empty-list", "via-local-alias", "via-data", "eval-of-begin", "eval-of-conditional"];
 
 #[derive(Clone, Copy, Debug)]
 struct Arity {
@@ -69,6 +69,9 @@ fn call(form: usize, callee: &str, a: Arity) -> String {
         4 => format!("(apply {} {} '())", callee, args.join(" ")),
         5 => format!("((lambda (p) (p {})) {})", args.join(" "), callee),
         6 => format!("((car (list {})) {})", callee, args.join(" ")),
+        // the evaluated code is a derived form whose last / selected expression is the call
+        7 => format!("(eval (list 'begin ''side (list '{} {})))", callee, args.join(" ")),
+        8 => format!("(eval (list 'cond (list #f 0) (list 'else (list '{} {}))))", callee, args.join(" ")),
         _ => format!("(eval (list '{} {}))", callee, args.join(" ")),
     }
 }
@@ -344,7 +347,7 @@ pub fn run(ctx: &Ctx) -> i32 {
         return 3;
     }
     rep.rule = format!(
-        "Loops (define (f n acc p.. [. r]) (if (= n 0) acc CHAIN[call])) over: every chain of <= {} tail contexts with all 10x10 caller/callee arity pairs (0..4 extra parameters x fixed/rest) and every chain of <= {} with 9 pairs; {} tail contexts (if both arms, cond clause / else / =>, case clause / else, and, or, when, unless, let, let*, letrec, named let, begin, call/cc receiver); the call itself direct, through apply (some, all or none of the arguments in the final list), through eval, through a local alias of the callee, or with the callee taken out of a data structure (quick tier: apply/eval only up to the full-arity depth); self, two- and three-procedure recursion with different arities around the cycle (also with the later procedures named odd? / even?, builtins when the first one is compiled, and with an internal definition at the head of every body) = {} loops. Oracles: value = n for n = 10 and 1000 and equal to the non-tail twin (+ 0 CHAIN[call]); stack high-water mark (hook) at n = 1000 within 64 slots of n = 10{}; as anti-vacuity the twin's high-water mark (n = 250) must grow by >= 225 slots, and on a sub-grid the reference machine confirms constant continuation depth (the generated call really is a tail call). Non-trivial = a loop that passed all oracles.",
+        "Loops (define (f n acc p.. [. r]) (if (= n 0) acc CHAIN[call])) over: every chain of <= {} tail contexts with all 10x10 caller/callee arity pairs (0..4 extra parameters x fixed/rest) and every chain of <= {} with 9 pairs; {} tail contexts (if both arms, cond clause / else / =>, case clause / else, and, or, when, unless, let, let*, letrec, named let, begin, call/cc receiver); the call itself direct, through apply (some, all or none of the arguments in the final list), through eval (of the call itself, of a begin that ends in it, of a cond whose else clause is it), through a local alias of the callee, or with the callee taken out of a data structure (quick tier: apply/eval only up to the full-arity depth); self, two- and three-procedure recursion with different arities around the cycle (also with the later procedures named odd? / even?, builtins when the first one is compiled, and with an internal definition at the head of every body) = {} loops. Oracles: value = n for n = 10 and 1000 and equal to the non-tail twin (+ 0 CHAIN[call]); stack high-water mark (hook) at n = 1000 within 64 slots of n = 10{}; as anti-vacuity the twin's high-water mark (n = 250) must grow by >= 225 slots, and on a sub-grid the reference machine confirms constant continuation depth (the generated call really is a tail call). Non-trivial = a loop that passed all oracles.",
         max_full, max_nine, WRAPPERS.len(), n, if ctx.tier == Tier::Thorough { "; at n = 10^5 within 64 slots of n = 1000 for chains of depth <= 1 on the 9 pairs" } else { "" }
     );
     rep.extra("loops", json!(n));
